@@ -78,6 +78,10 @@ CHECKS = {
    text="The translator lists every package-level variable of /repo with every write, method call and escape; the check accepts only variables never modified after initialisation (so a new cache or shared buffer is an unproved obligation). The one variable that was modified, the hasher of hashStrings, is modelled (FNV-1 64, Reset / Write per symbol / Sum64 as atomic steps) and the theorems of Props/C17.v say: a call's result does not depend on the hasher's history; ANY computation using the hasher only through hashStrings returns the result of a fresh process whatever was processed before (sequential independence, all histories); with a hasher per call EVERY interleaving of two goroutines' steps gives each its isolated result; with a shared hasher some interleaving does not (refuted statement = the repaired defect). Tie: hashStrings vs the model on calls made in one process; random orders of specifications and patterns in one process vs fresh-process results; concurrent parses under the race detector with every report attributed to the owner of the state.",
    note=TB + "The Go memory model and the scheduler are not modelled; interleavings are proved for /repo's own state only. The dependency's shared hash functions make concurrent parses race and panic (known finding D20). D20a (/repo's own shared hasher) was found and fixed.",
    tech="proof over a shared-state model (history independence, interleaving safety of private state); package-variable list regenerated from source; race detector and order sweeps for correspondence"),
+ "C16": dict(cat="proof",
+   text="The command-line tool and the generator's file handling are modelled over an explicit file system (Emerge/Cli.v) as a function of PARAMETERS that the translator reads from the current source on every run (reserved-word list, conjuncts of isIDValid, main's reaction to a flag error, files of each generation step, O_EXCL, Mkdir vs MkdirAll, order of the checks in prepare, the -name override). Theorems, for every command line, every outcome of parsing and EVERY pre-existing file system: nothing that existed is modified (frame); status 0 implies success announced, specification accepted and all six files present with their own content in <out>/<name>, and conversely; anything else exits 1 with nothing created; a name that is not a usable Go package identifier (syntax, 25 keywords, blank; written from the language specification) is rejected before anything is created; -name replaces the grammar's name; everything created lies under <out>/<name>; flag errors never panic. Props/C16*.v instantiate them with the translated record and discharge the side conditions by computation. Tie: the real binary is run in sandbox directories over the product of flags x names x input classes x pre-states of the output location; the tree is snapshotted before and after and compared with the model's result, and isIDValid is compared with the model on ASCII names.",
+   note=TB + "Kernel/file-system semantics (permissions, races with other processes) are runtime: the sandbox runs as root, so permission-denied pre-states cannot be exercised. Non-ASCII names are outside the identifier model (run, checked against the frame property only). D17 (panic on flag errors) and D27 (blank identifier accepted) were found and fixed.",
+   tech="proof over a file-system model parametrised by a record translated from the source; correspondence by sandboxed runs of the real binary with before/after snapshots"),
 }
 
 ORDER = sorted(CHECKS)
